@@ -83,6 +83,16 @@ def run(ctx):
                 tr = track_result(gb, c.dest[0], +1)
                 if tr.returned and ty_class(g.ret) == 'result':
                     prop.append('%s line %d: the verification result is returned as the function\'s result' % (fn_short(g.name), c.line))
+                # control: from the failing arm of the verification, no failure return before the next item is taken
+                if tr.fail_edges and ty_class(g.ret) == 'result':
+                    hdr_blocks = {cc.bb for cc in gb.calls() if any(glob_match('*Iterator*::next', n) for n in cc.names())}
+                    in_loop = loop_body_entry(gb, c.bb) is not None
+                    reach = gb.reach([b_ for _, b_ in tr.fail_edges], stop=hdr_blocks if in_loop else frozenset())
+                    _, failret = return_assigns(gb, 'ok')
+                    bad_ret = sorted(b_ for b_ in reach if b_ in failret)
+                    if bad_ret:
+                        prop.append('%s line %d: a failure return (bb%s) is reachable from the failing arm of the verification%s' % (
+                            fn_short(g.name), c.line, bad_ret[:3], ' before the next signature is taken' if in_loop else ''))
             if prop:
                 R.violation('a', 'R1', inst, 'select:skip-invalid', '; '.join(prop[:3]), f.loc())
             else:
